@@ -38,24 +38,30 @@ theorem turn_end_rebinds (c : Cfg) (s : St) (h : Inv s) (op : Op) (_hop : op = .
     (step c s op).1.dev = none ∨ (step c s op).1.dev = some (step c s op).1.cur :=
   (inv_step c s op h).1
 
-/-- **frame**: any request — variable set/add, any control event of any device, shot-group rotation, add player, ball drain with or without extra ball — leaves
-the whole dictionary (variables *and* stored device state) of every player who is not up before or after it unchanged. -/
+/-- **frame**: any request — variable set/add, any control event of any device (counter, accrual and sequence with their
+list-valued / integer progress, shots, flags, achievements, timer start/stop/pause/add/subtract/jump/reset/restart),
+shot-group rotation, the passing of any amount of time (running timers tick, timed pauses end), machine-variable
+set/add, add player, mode stop/start, ball drain with or without extra ball — leaves the whole dictionary (variables
+*and* stored device state) of every player who is not up before or after it unchanged.  The only request that is meant
+to write to somebody else, a `variable_player` entry with an explicit `player:`, is excluded for exactly that player (`h3`). -/
 theorem frame (c : Cfg) (s : St) (op : Op) (h : Inv s) (q : Nat) (hq : q < s.players.length)
-    (h1 : q ≠ s.cur) (h2 : q ≠ (step c s op).1.cur) (hg : (step c s op).1.players ≠ []) :
+    (h1 : q ≠ s.cur) (h2 : q ≠ (step c s op).1.cur) (hg : (step c s op).1.players ≠ [])
+    (h3 : explicitTarget op ≠ some q) :
     (step c s op).1.players[q]? = s.players[q]? :=
-  frame_step c s op h q hq h1 h2 hg
+  frame_step c s op h q hq h1 h2 hg h3
 
 /-- **frame over histories**: whatever happens while player `q` is never up (other players' turns, their extra
-balls, their scoring and progress, players joining), `q`'s dictionary at the end is exactly what it was. -/
+balls, their scoring and progress, time passing with their timers running or paused, players joining), `q`'s
+dictionary at the end is exactly what it was. -/
 theorem frame_run (c : Cfg) (q : Nat) (ops : List Op) (s : St) (h : Inv s) (hq : q < s.players.length)
     (hquiet : quiet c q s ops) : (run c s ops).players[q]? = s.players[q]? := by
   induction ops generalizing s with
   | nil => rfl
   | cons op rest ih =>
-    obtain ⟨h1, h2, hg, hr⟩ := hquiet
+    obtain ⟨h1, h2, hg, h3, hr⟩ := hquiet
     have hl := step_length_mono c s op hg
     rw [run, ih (step c s op).1 (inv_step c s op h) (by omega) hr]
-    exact frame_step c s op h q hq h1 h2 hg
+    exact frame_step c s op h q hq h1 h2 hg h3
 
 /-- **restore**, for every persisting device at once: when a ball ends and the next ball starts (next player, next ball
 of the same player, or an extra ball), each device of the game mode presents `load` of exactly the state stored under
@@ -63,7 +69,7 @@ its key in the dictionary of the player who is now up — which by `frame_run` i
 player's previous ball — and the fresh state if that player never had it.  (`load` is the identity for logic blocks,
 shot/profile states and persisted enable flags; the documented started→stopped rule for achievements; the start value
 for timers.) -/
-theorem restore (c : Cfg) (hk : KeysOK c) (s : St) (h : Inv s) (hne : s.players ≠ [])
+theorem restore (c : Cfg) (ha : c.autoStart = true) (hk : KeysOK c) (s : St) (h : Inv s) (hne : s.players ≠ [])
     (hg : (step c s .drain).1.players ≠ []) (d : Dev) (hd : d ∈ c.devs) :
     view (step c s .drain).1 d = some (loaded d (varsOf s (step c s .drain).1.cur)) := by
   have hcur := h.2 hne
@@ -91,7 +97,7 @@ theorem restore (c : Cfg) (hk : KeysOK c) (s : St) (h : Inv s) (hne : s.players 
     rw [hm, loadAll_get _ _ hk.1 d hd]
     unfold loaded
     rw [get_put_other _ _ _ _ (Ne.symm hkd)]
-  simp only [step, if_neg hne] at hg ⊢
+  simp only [step, if_neg hne, ballStart, ha, if_true] at hg ⊢
   split
   · rw [modeStart_cur, setOn_cur]
     exact key _ _ _ _ hcur (Ne.symm (hk.2 d hd).2)
@@ -101,7 +107,7 @@ theorem restore (c : Cfg) (hk : KeysOK c) (s : St) (h : Inv s) (hne : s.players 
     · rename_i hy; rw [if_pos hy] at hg; exact absurd rfl hg
     · rw [turnStart_cur]
       unfold turnStart
-      simp only []
+      simp only [ballStart, ha, if_true]
       refine key { s with dev := none, cur := _ } _ _ _ ?_ (Ne.symm (hk.2 d hd).1)
       show (if s.cur + 1 < s.players.length then s.cur + 1 else 0) < s.players.length
       split <;> omega
@@ -111,12 +117,14 @@ an accepted player joins with exactly the configured initial dictionary (index, 
 score 0) while everybody else's dictionary stays as it is; and every device whose key is not among those variables
 starts that player from its fresh state (with `restore`: that is what it presents at the player's first ball). -/
 theorem fresh_game (c : Cfg) (s s' : St) (h : s.players = []) (h' : s'.players = []) :
-    step c s .startGame = step c s' .startGame ∧
+    ((step c s .startGame).1.players = (step c s' .startGame).1.players ∧
+     (step c s .startGame).1.cur = (step c s' .startGame).1.cur ∧
+     (step c s .startGame).2 = (step c s' .startGame).2) ∧
     (∀ t : St, (step c t .addPlayer).1.players = t.players ∨
                (step c t .addPlayer).1.players = t.players ++ [newVars c t.players.length]) ∧
     (∀ i k v, (k, v) ∈ c.initVars → (k, v) ∈ newVars c i) ∧
     (∀ (d : Dev) i, get (newVars c i) d.key = none → loaded d (newVars c i) = d.fresh) := by
-  refine ⟨by simp [step, h, h'], fun t => ?_, fun i k v hm => by simp [newVars, hm],
+  refine ⟨by cases ha : c.autoStart <;> simp [step, h, h', turnStart, ballStart, modeStart, setOn, varsOf, ha], fun t => ?_, fun i k v hm => by simp [newVars, hm],
     fun d i hn => by unfold loaded; rw [hn]⟩
   simp only [step]
   split
@@ -144,16 +152,146 @@ theorem var_event_exact (m : Vars) (num : Nat) (k : String) (v : Val) :
       cases ht : truthy (changeOf v ((get m k).getD (.int 0))) <;> simp_all
   · intro a b hv hb; subst hv; simp [hb, changeOf]
 
+/-- **restore when the mode is started by request** (a game mode without `ball_started` among its start events, or one
+restarted in the middle of a ball): every device presents `load` of exactly what the player who is up has stored under
+its key — whatever happened in between, and however long ago that was stored — or its fresh state. -/
+theorem restore_on_mode_start (c : Cfg) (hk : KeysOK c) (s : St) (hne : s.players ≠ []) (hoff : s.dev = none)
+    (hcur : s.cur < s.players.length) (d : Dev) (hd : d ∈ c.devs) :
+    view (step c s .modeStart).1 d = some (loaded d (varsOf s s.cur)) := by
+  simp only [step, if_neg hne, hoff]
+  have hm : varsOf (modeStart c s s.cur) s.cur = loadAll c.devs (varsOf s s.cur) := by
+    unfold varsOf modeStart
+    simp only []
+    rw [modify_get_same _ _ _ hcur]; rfl
+  show (match (modeStart c s s.cur).dev with
+    | none => none
+    | some p => get (varsOf (modeStart c s s.cur) p) d.key) = _
+  rw [modeStart_dev]
+  simp only []
+  rw [hm, loadAll_get _ _ hk.1 d hd]
+
+/-- **time**: while no game mode runs (between a ball's end and the next start of the mode, after a stop request, after
+the game) the passing of any amount of time changes nothing at all — no timer of a stopped mode ticks or resumes from a
+pause; while it runs, time changes the dictionary of the player who is up and nobody else's, and neither the pointer
+nor the turn. -/
+theorem time_passing (c : Cfg) (s : St) (n : Nat) :
+    (s.dev = none → step c s (.wait n) = (s, [])) ∧
+    (Inv s → ∀ q, q ≠ s.cur → (step c s (.wait n)).1.players[q]? = s.players[q]?) ∧
+    (step c s (.wait n)).1.cur = s.cur ∧ (step c s (.wait n)).1.dev = s.dev ∧ (step c s (.wait n)).2 = [] := by
+  refine ⟨fun h => by simp [step, h], fun h q hq => ?_, ?_, ?_, ?_⟩
+  · simp only [step]
+    split
+    · rfl
+    · rename_i p hp
+      have := dev_eq_cur h hp
+      subst this
+      exact modify_get_other _ _ _ _ hq
+  all_goals (simp only [step]; split <;> rfl)
+
+/-- **a stopped mode is inert**: after a stop request, after the game has ended, and after a ball has drained when the
+mode does not start with the ball, nothing points into any player any more, so (by `time_passing`) no amount of time
+changes anybody's variables — in particular a timer that was in a timed pause when its mode stopped cannot come back
+to life bound to the previous player. -/
+theorem stopped_mode_is_inert (c : Cfg) (s : St) (n : Nat) :
+    (∀ op, op = .modeStop ∨ op = .endGame ∨ (op = .drain ∧ c.autoStart = false ∧ s.players ≠ []) →
+      (step c s op).1.dev = none ∧ step c (step c s op).1 (.wait n) = ((step c s op).1, [])) := by
+  intro op hop
+  have hd : (step c s op).1.dev = none := by
+    rcases hop with e | e | ⟨e, ha, hne⟩ <;> subst e
+    · rfl
+    · rfl
+    · simp only [step, if_neg hne, turnStart, ballStart, ha]
+      split
+      · rfl
+      · split <;> rfl
+  exact ⟨hd, (time_passing c _ n).1 hd⟩
+
+/-- **explicit target**: a `variable_player` entry that names player `p+1` (who exists) writes to exactly that player:
+the stored value, the single event (with *that* player's number, previous value and change) are those of an assignment
+in `p`'s dictionary, and every other player — including the one who is up — keeps their dictionary. -/
+theorem explicit_target_exact (c : Cfg) (s : St) (p : Nat) (k : String) (v : Val) (hp : p < s.players.length) :
+    (step c s (.setP p k v)).2 = (setVar (varsOf s p) (p + 1) k v).2 ∧
+    (step c s (.setP p k v)).1.players[p]? = some (setVar (varsOf s p) (p + 1) k v).1 ∧
+    ∀ q, q ≠ p → (step c s (.setP p k v)).1.players[q]? = s.players[q]? := by
+  have hne : s.players ≠ [] := by intro e; simp [e] at hp
+  have ht : targetOf s p = p := by simp [targetOf, hp]
+  simp only [step, if_neg hne, ht]
+  refine ⟨rfl, ?_, fun q hq => ?_⟩
+  · rw [setOn_players, modify_get_same _ _ _ hp]; rfl
+  · rw [setOn_players]; exact modify_get_other _ _ _ _ hq
+
+/-- **machine scope**: `set_machine` / `add_machine` entries change no player's dictionary and post no player event;
+and no other request changes a machine variable. -/
+theorem machine_scope (c : Cfg) (s : St) (k : String) (v : Val) (d : Int) :
+    (step c s (.setMachine k v)).1.players = s.players ∧ (step c s (.setMachine k v)).2 = [] ∧
+    (step c s (.addMachine k d)).1.players = s.players ∧ (step c s (.addMachine k d)).2 = [] ∧
+    (∀ op, (∀ k v, op ≠ .setMachine k v) → (∀ k d, op ≠ .addMachine k d) → (step c s op).1.machine = s.machine) := by
+  refine ⟨?_, ?_, ?_, ?_, ?_⟩
+  · simp only [step]; split <;> rfl
+  · simp only [step]; split <;> rfl
+  · simp only [step]; split
+    · rfl
+    · split <;> rfl
+  · simp only [step]; split
+    · rfl
+    · split <;> rfl
+  · intro op h1 h2
+    cases op with
+    | setMachine k v => exact absurd rfl (h1 k v)
+    | addMachine k d => exact absurd rfl (h2 k d)
+    | startGame =>
+      cases ha : c.autoStart <;> simp only [step] <;> split <;> simp [turnStart, ballStart, modeStart, setOn, ha]
+    | drain =>
+      cases ha : c.autoStart <;> simp only [step] <;> repeat' split
+      all_goals simp [turnStart, ballStart, modeStart, setOn, ha]
+    | drainPre =>
+      cases ha : c.autoStart <;> simp only [step] <;> repeat' split
+      all_goals simp [turnStart, ballStart, modeStart, setOn, ha]
+    | _ => simp only [step] <;> repeat' split
+           all_goals simp [modeStart, setOn]
+
+/-- the timer of the correspondence run (`timerDev`, the rules of `mpf/devices/timer.py`): stopped, or paused until it is
+started again, with no resume pending, it keeps its ticks however much time passes; and whatever its configuration, a
+load gives the start value (a timer does not carry ticks over to the player's next ball — its variable does, until the
+mode starts again). -/
+theorem stopped_timer_keeps_ticks (t : TimerCfg) (key : String) (l : Loc) (v : Int) (hr : l.run = false) (hp : l.pause = 0) :
+    (timerDev key t).tick l (.int v) = (l, .int v) ∧ ∀ x, (timerDev key t).load x = .int t.start := by
+  refine ⟨?_, fun _ => rfl⟩
+  show tmTick t l (.int v) = (l, .int v)
+  simp [tmTick, hr, hp]
+
 /-- the hypotheses are satisfiable and the statements bite: two players, a shot (3 states) and an achievement-like
 device whose `load` turns 1 into 2; player 1 advances the shot twice and scores, player 2 advances it once; when
 player 1 is up again the shot shows 2, the other device was transformed by `load`, player 2's dictionary still holds 1 -/
 example :
-    let shot : Dev := ⟨"shot_sh1", .int 0, id, fun _ v => match v with | .int s => .int (s + 1) | x => x⟩
-    let ach : Dev := ⟨"ach", .int 1, fun v => if v = .int 1 then .int 2 else v, fun _ v => v⟩
+    let shot : Dev := plainDev "shot_sh1" (.int 0) id fun _ v => match v with | .int s => .int (s + 1) | x => x
+    let ach : Dev := plainDev "ach" (.int 1) (fun v => if v = .int 1 then .int 2 else v) fun _ v => v
     let c : Cfg := { initVars := [("pa", .int 5)], ballsPerGame := 2, devs := [shot, ach] }
     let s := run c {} [.startGame, .addPlayer, .dev 0 0, .dev 0 0, .add "score" 100, .drain, .dev 0 0, .drain]
     Inv s ∧ s.cur = 0 ∧ view s shot = some (.int 2) ∧ view s ach = some (.int 2) ∧
     get (varsOf s 1) "shot_sh1" = some (.int 1) ∧ get (varsOf s 1) "ach" = some (.int 1) ∧
     get (varsOf s 0) "score" = some (.int 100) ∧ get (varsOf s 1) "score" = some (.int 0) := by decide
+
+/-- list-valued progress, timers and time: a game mode that is started by request holds an accrual (3 steps) and a
+timer (running from the start, a tick every 4 units, a timed pause of 8 units).  Player 1 lets it tick twice, pauses it,
+collects step 0 and drains inside the pause window; 20 units pass and player 2 is given 50 points by an explicitly
+targeted entry of player 1's... turn — player 1's ticks stay 2 and the accrual list stays [1,0,0] (nothing resumes);
+player 2 starts the mode, collects step 1 and gets one tick; back at player 1 the accrual shows [1,0,0] again, the timer
+starts from its start value, and player 2's dictionary holds [0,1,0] and 1 tick. -/
+example :
+    let acc : Dev := plainDev "ap_state" (.ablk [false, false, false] true false) id fun code v => accHit code v
+    let tm : Dev := timerDev "m1_tm_tick" ⟨0, true, none, 4, 8⟩
+    let c : Cfg := { ballsPerGame := 3, devs := [acc, tm], autoStart := false }
+    let s1 := run c {} [.startGame, .addPlayer, .modeStart, .wait 9, .dev 1 5, .dev 0 0, .drain]
+    let s2 := run c s1 [.wait 20, .setP 0 "score" (.int 50)]
+    let s3 := run c s2 [.modeStart, .dev 0 1, .wait 4, .drain, .modeStart]
+    Inv s3 ∧ s1.cur = 1 ∧ s1.dev = none ∧
+    get (varsOf s1 0) "m1_tm_tick" = some (.int 2) ∧ get (varsOf s2 0) "m1_tm_tick" = some (.int 2) ∧
+    get (varsOf s2 0) "ap_state" = some (.ablk [true, false, false] true false) ∧
+    get (varsOf s2 0) "score" = some (.int 50) ∧ get (varsOf s2 1) "score" = some (.int 0) ∧
+    s3.cur = 0 ∧ view s3 acc = some (.ablk [true, false, false] true false) ∧ view s3 tm = some (.int 0) ∧
+    get (varsOf s3 1) "ap_state" = some (.ablk [false, true, false] true false) ∧
+    get (varsOf s3 1) "m1_tm_tick" = some (.int 1) := by decide
+
 
 end MpfVerif.C11
